@@ -385,6 +385,13 @@ def hier_build(s, variant, skip):
         drive(mv, lambda: Constant(s, 'cmv', 1, mv))
         rm = s.wire('rm', 2)
         drive(rm, lambda: mkbuf(s, 'brm', mv, rm))
+        # a grouping block WITHOUT ports of its own (all its wires are internal) with blocks inside
+        g0 = py4hw.Logic(s, 'island')
+        ia, ib, ir = g0.wire('ia', 2), g0.wire('ib', 2), g0.wire('ir', 2)
+        drive(ia, lambda: Constant(g0, 'cia', 1, ia))
+        drive(ib, lambda: Constant(g0, 'cib', 2, ib))
+        drive(ir, lambda: And2(g0, 'gand', ia, ib, ir))
+        Not(g0, 'gn', ir, g0.wire('unread', 2))
         deep = s.wire('deep', 2)
 
         def bodyd(b):
